@@ -1,21 +1,321 @@
-// PENDING PROOFS (assumed for now; each is a standard fact to be discharged in U-NTT):
+// Core algebra over the NTT specification (no code involved): powers, evaluation, the negacyclic
+// shift, and the facts `verify` needs (lemma_root_order, lemma_eval_hom, lemma_conv_cong).
+
+proof fn lemma_powi_step(b: int, e: nat)
+    ensures powi(b, e + 1) == b * powi(b, e), powi(b, 0) == 1
+{
+    reveal_with_fuel(powi, 2);
+}
+proof fn lemma_powi_cong(x: int, y: int, e: nat)
+    requires cong(x, y)
+    ensures cong(powi(x, e), powi(y, e))
+    decreases e
+{
+    reveal_with_fuel(powi, 2);
+    if e == 0 { lemma_cong_trans(1, 1, 1); } else {
+        lemma_powi_cong(x, y, (e - 1) as nat);
+        lemma_cong_arith(x, y, powi(x, (e - 1) as nat), powi(y, (e - 1) as nat));
+    }
+}
+/// s^(2k) == (s*s)^k  and  s^(2k+1) == s * (s*s)^k
+proof fn lemma_powi_sq(s: int, k: nat)
+    ensures powi(s, 2 * k) == powi(s * s, k), powi(s, 2 * k + 1) == s * powi(s * s, k)
+    decreases k
+{
+    lemma_powi_step(s, 0);
+    if k == 0 {
+        lemma_powi_step(s * s, 0);
+    } else {
+        lemma_powi_sq(s, (k - 1) as nat);
+        lemma_powi_step(s, (2 * k - 1) as nat);
+        lemma_powi_step(s, 2 * k);
+        lemma_powi_step(s * s, (k - 1) as nat);
+        let q = powi(s * s, (k - 1) as nat);
+        assert(s * (s * q) == (s * s) * q) by (nonlinear_arith);
+        assert(s * ((s * s) * q) == s * (s * s * q)) by (nonlinear_arith);
+    }
+}
+proof fn lemma_cong_refl(x: int)
+    ensures cong(x, x)
+{
+}
+proof fn lemma_cong_neg_modq(x: int)
+    ensures cong(modq(-x), -x)
+{
+    lemma_modq_idem(-x);
+}
+
+/// squares of table entries walk up the tree of roots: tab(m+i)^2 == root(m, i)
+proof fn lemma_tab_square(m: int, i: int)
+    requires table_facts(), pow2(m), m <= 512, 0 <= i < m
+    ensures cong(tab(m + i) * tab(m + i), root(m, i)), 0 <= tab(m + i) < 12289
+{
+    if m == 1 {
+        assert(tab(2 * 0int + 1) == tab(1));
+        assert(cong(tab(1) * tab(1), -tab(0)));
+        lemma_cong_trans(tab(1) * tab(1), -1, 12288);
+    } else {
+        let k = m / 2 + i / 2;
+        if i % 2 == 0 {
+            assert(m + i == 2 * k);
+        } else {
+            assert(m + i == 2 * k + 1);
+            lemma_cong_neg_modq(tab(k));
+            lemma_cong_trans(tab(2 * k + 1) * tab(2 * k + 1), -tab(k), modq(-tab(k)));
+        }
+    }
+}
+
 /// the roots used by the transform are roots of X^n + 1
-#[verifier::external_body]
 proof fn lemma_root_order(n: int, i: int)
-    requires pow2(n), 0 <= i < n
+    requires table_facts(), pow2(n), 0 <= i < n
     ensures cong(powi(root(n, i), n as nat), -1)
-{ }
+    decreases n
+{
+    if n == 1 {
+        lemma_powi_step(12288, 0);
+        assert(powi(12288, 1) == 12288) by { assert(12288 * 1 == 12288); }
+    } else {
+        let m = n / 2;
+        let i2 = i / 2;
+        let s = tab(m + i2);
+        lemma_root_order(m, i2);
+        lemma_tab_square(m, i2);
+        // powi(+-s, 2m) == powi(s*s, m) ~ powi(root(m, i2), m) ~ -1
+        lemma_powi_cong(s * s, root(m, i2), m as nat);
+        lemma_cong_trans(powi(s * s, m as nat), powi(root(m, i2), m as nat), -1);
+        if i % 2 == 0 {
+            lemma_powi_sq(s, m as nat);
+        } else {
+            lemma_cong_neg_modq(s);
+            lemma_powi_cong(modq(-s), -s, n as nat);
+            lemma_powi_sq(-s, m as nat);
+            assert((-s) * (-s) == s * s) by (nonlinear_arith);
+            lemma_cong_trans(powi(modq(-s), n as nat), powi(-s, n as nat), -1);
+        }
+    }
+}
+
+// ---- evaluation: steps, congruence, linearity ----
+proof fn lemma_eval_step(a: Seq<int>, r: int, m: nat)
+    ensures eval_upto(a, r, m + 1) == eval_upto(a, r, m) + a[m as int] * powi(r, m), eval_upto(a, r, 0) == 0
+{
+    reveal_with_fuel(eval_upto, 2);
+}
+proof fn lemma_eval_cong(u: Seq<int>, v: Seq<int>, r: int, m: nat)
+    requires m <= u.len(), m <= v.len(), forall|k: int| 0 <= k < m ==> cong(#[trigger] u[k], v[k])
+    ensures cong(eval_upto(u, r, m), eval_upto(v, r, m))
+    decreases m
+{
+    if m == 0 { lemma_eval_step(u, r, 0); lemma_eval_step(v, r, 0); } else {
+        lemma_eval_cong(u, v, r, (m - 1) as nat);
+        lemma_eval_step(u, r, (m - 1) as nat);
+        lemma_eval_step(v, r, (m - 1) as nat);
+        lemma_cong_refl(powi(r, (m - 1) as nat));
+        lemma_cong_arith(u[m - 1], v[m - 1], powi(r, (m - 1) as nat), powi(r, (m - 1) as nat));
+        lemma_cong_arith(eval_upto(u, r, (m - 1) as nat), eval_upto(v, r, (m - 1) as nat),
+                         u[m - 1] * powi(r, (m - 1) as nat), v[m - 1] * powi(r, (m - 1) as nat));
+    }
+}
+/// eval(u + lam * v) == eval(u) + lam * eval(v)   (exact, over Z)
+proof fn lemma_eval_linear(u: Seq<int>, v: Seq<int>, w: Seq<int>, lam: int, r: int, m: nat)
+    requires m <= u.len(), m <= v.len(), m <= w.len(),
+             forall|k: int| 0 <= k < m ==> #[trigger] w[k] == u[k] + lam * v[k]
+    ensures eval_upto(w, r, m) == eval_upto(u, r, m) + lam * eval_upto(v, r, m)
+    decreases m
+{
+    if m == 0 { lemma_eval_step(u, r, 0); lemma_eval_step(v, r, 0); lemma_eval_step(w, r, 0); } else {
+        lemma_eval_linear(u, v, w, lam, r, (m - 1) as nat);
+        lemma_eval_step(u, r, (m - 1) as nat);
+        lemma_eval_step(v, r, (m - 1) as nat);
+        lemma_eval_step(w, r, (m - 1) as nat);
+        let p = powi(r, (m - 1) as nat);
+        let eu = eval_upto(u, r, (m - 1) as nat);
+        let ev = eval_upto(v, r, (m - 1) as nat);
+        assert(w[m - 1] == u[m - 1] + lam * v[m - 1]);
+        assert((u[m - 1] + lam * v[m - 1]) * p == u[m - 1] * p + lam * (v[m - 1] * p)) by (nonlinear_arith);
+        assert(lam * (ev + v[m - 1] * p) == lam * ev + lam * (v[m - 1] * p)) by (nonlinear_arith);
+    }
+}
+
+// ---- multiplication by X in Z[X]/(X^n+1) ----
+pub open spec fn shiftneg(v: Seq<int>) -> Seq<int> {
+    Seq::new(v.len(), |k: int| if k == 0 { -v[v.len() - 1] } else { v[k - 1] })
+}
+/// b * X^m : coefficient k is bneg(b, k - m)
+pub open spec fn shm(b: Seq<int>, m: int) -> Seq<int> { Seq::new(b.len(), |k: int| bneg(b, k - m)) }
+
+proof fn lemma_eval_shift_upto(v: Seq<int>, r: int, k: nat)
+    requires 1 <= k <= v.len()
+    ensures eval_upto(shiftneg(v), r, k) == -v[v.len() - 1] + r * eval_upto(v, r, (k - 1) as nat)
+    decreases k
+{
+    let sv = shiftneg(v);
+    lemma_eval_step(sv, r, (k - 1) as nat);
+    lemma_powi_step(r, 0);
+    if k == 1 {
+        lemma_eval_step(v, r, 0);
+        assert(sv[0] == -v[v.len() - 1]);
+        assert(r * 0 == 0);
+    } else {
+        lemma_eval_shift_upto(v, r, (k - 1) as nat);
+        lemma_eval_step(v, r, (k - 2) as nat);
+        lemma_powi_step(r, (k - 2) as nat);
+        let p = powi(r, (k - 2) as nat);
+        assert(sv[k - 1] == v[k - 2]);
+        let e = eval_upto(v, r, (k - 2) as nat);
+        assert(v[k - 2] * (r * p) == r * (v[k - 2] * p)) by (nonlinear_arith);
+        assert(r * (e + v[k - 2] * p) == r * e + r * (v[k - 2] * p)) by (nonlinear_arith);
+    }
+}
+proof fn lemma_eval_shift(v: Seq<int>, r: int)
+    requires v.len() >= 1, cong(powi(r, v.len()), -1)
+    ensures cong(eval(shiftneg(v), r), r * eval(v, r))
+{
+    let n = v.len();
+    lemma_eval_shift_upto(v, r, n);
+    lemma_eval_step(v, r, (n - 1) as nat);
+    lemma_powi_step(r, (n - 1) as nat);
+    let e = eval_upto(v, r, (n - 1) as nat);
+    let p = powi(r, (n - 1) as nat);
+    let last = v[n - 1];
+    // r * eval(v) = r*e + last * r^n  ~  r*e - last
+    assert(r * (e + last * p) == r * e + last * (r * p)) by (nonlinear_arith);
+    lemma_cong_refl(last);
+    lemma_cong_arith(last, last, r * p, -1);
+    assert(last * -1 == -last);
+    lemma_cong_refl(r * e);
+    lemma_cong_arith(r * e, r * e, last * (r * p), -last);
+    lemma_cong_trans(r * e + last * (r * p), r * e + -last, r * e + -last);
+}
+proof fn lemma_shm_step(b: Seq<int>, m: int)
+    requires 0 <= m < b.len()
+    ensures shm(b, m + 1) =~= shiftneg(shm(b, m)), shm(b, 0) =~= b
+{
+}
+proof fn lemma_eval_shm(b: Seq<int>, r: int, m: nat)
+    requires b.len() >= 1, m <= b.len(), cong(powi(r, b.len()), -1)
+    ensures cong(eval(shm(b, m as int), r), powi(r, m) * eval(b, r))
+    decreases m
+{
+    lemma_powi_step(r, 0);
+    if m == 0 {
+        lemma_shm_step(b, 0);
+        assert(1 * eval(b, r) == eval(b, r));
+        lemma_cong_refl(eval(b, r));
+    } else {
+        lemma_eval_shm(b, r, (m - 1) as nat);
+        lemma_shm_step(b, m - 1);
+        lemma_eval_shift(shm(b, m - 1), r);
+        lemma_powi_step(r, (m - 1) as nat);
+        let pe = powi(r, (m - 1) as nat) * eval(b, r);
+        lemma_cong_refl(r);
+        lemma_cong_arith(r, r, eval(shm(b, m - 1), r), pe);
+        assert(r * (powi(r, (m - 1) as nat) * eval(b, r)) == (r * powi(r, (m - 1) as nat)) * eval(b, r)) by (nonlinear_arith);
+        lemma_cong_trans(eval(shm(b, m as int), r), r * eval(shm(b, m - 1), r), r * pe);
+    }
+}
+
+// ---- the convolution ----
+proof fn lemma_conv_step(a: Seq<int>, b: Seq<int>, k: int, m: nat)
+    ensures conv_upto(a, b, k, m + 1) == conv_upto(a, b, k, m) + a[m as int] * bneg(b, k - m), conv_upto(a, b, k, 0) == 0
+{
+    reveal_with_fuel(conv_upto, 2);
+}
+pub open spec fn conv_vec(a: Seq<int>, b: Seq<int>, m: nat) -> Seq<int> {
+    Seq::new(b.len(), |k: int| conv_upto(a, b, k, m))
+}
+/// eval of the partial convolution with the first m terms of a
+proof fn lemma_eval_conv(a: Seq<int>, b: Seq<int>, r: int, m: nat)
+    requires a.len() == b.len(), b.len() >= 1, m <= a.len(), cong(powi(r, b.len()), -1)
+    ensures cong(eval(conv_vec(a, b, m), r), eval_upto(a, r, m) * eval(b, r))
+    decreases m
+{
+    let n = b.len();
+    if m == 0 {
+        lemma_eval_step(a, r, 0);
+        let z = conv_vec(a, b, 0);
+        assert forall|k: int| 0 <= k < n implies #[trigger] z[k] == 0 + 0 * b[k] by { lemma_conv_step(a, b, k, 0); }
+        lemma_eval_linear(Seq::new(n, |k: int| 0int), b, z, 0, r, n);
+        lemma_eval_zero(n, r, n);
+        assert(0 * eval(b, r) == 0);
+    } else {
+        let mm = (m - 1) as nat;
+        lemma_eval_conv(a, b, r, mm);
+        let u = conv_vec(a, b, mm);
+        let w = conv_vec(a, b, m);
+        let v = shm(b, mm as int);
+        assert forall|k: int| 0 <= k < n implies #[trigger] w[k] == u[k] + a[mm as int] * v[k] by { lemma_conv_step(a, b, k, mm); }
+        lemma_eval_linear(u, v, w, a[mm as int], r, n);
+        lemma_eval_shm(b, r, mm);
+        lemma_eval_step(a, r, mm);
+        let eb = eval(b, r);
+        let pm = powi(r, mm);
+        // eval(w) = eval(u) + a[mm]*eval(v) ~ eval_upto(a,mm)*eb + a[mm]*(pm*eb) = eval_upto(a,m)*eb
+        lemma_cong_refl(a[mm as int]);
+        lemma_cong_arith(a[mm as int], a[mm as int], eval(v, r), pm * eb);
+        lemma_cong_arith(eval(u, r), eval_upto(a, r, mm) * eb, a[mm as int] * eval(v, r), a[mm as int] * (pm * eb));
+        assert(eval_upto(a, r, mm) * eb + a[mm as int] * (pm * eb) == (eval_upto(a, r, mm) + a[mm as int] * pm) * eb) by (nonlinear_arith);
+    }
+}
+proof fn lemma_eval_zero(n: nat, r: int, m: nat)
+    requires m <= n
+    ensures eval_upto(Seq::new(n, |k: int| 0int), r, m) == 0
+    decreases m
+{
+    let z = Seq::new(n, |k: int| 0int);
+    if m == 0 { lemma_eval_step(z, r, 0); } else {
+        lemma_eval_zero(n, r, (m - 1) as nat);
+        lemma_eval_step(z, r, (m - 1) as nat);
+        assert(z[m - 1] == 0);
+        assert(0 * powi(r, (m - 1) as nat) == 0);
+    }
+}
+
 /// evaluation at a root of X^n + 1 is a ring homomorphism on Z[X]/(X^n + 1)
-#[verifier::external_body]
 proof fn lemma_eval_hom(c: Seq<int>, a: Seq<int>, b: Seq<int>, r: int)
-    requires a.len() == c.len(), b.len() == c.len(), cong(powi(r, c.len()), -1)
+    requires a.len() == c.len(), b.len() == c.len(), c.len() >= 1, cong(powi(r, c.len()), -1)
     ensures ({ let p = Seq::new(c.len(), |k: int| modq(c[k] - negacyclic(a, b)[k]));
                cong(eval(p, r), eval(c, r) - eval(a, r) * eval(b, r)) })
-{ }
+{
+    let n = c.len();
+    let p = Seq::new(c.len(), |k: int| modq(c[k] - negacyclic(a, b)[k]));
+    let cv = conv_vec(a, b, n);
+    let d = Seq::new(n, |k: int| c[k] + (-1) * cv[k]);
+    assert forall|k: int| 0 <= k < n implies cong(#[trigger] p[k], d[k]) by {
+        lemma_modq_idem(c[k] - negacyclic(a, b)[k]);
+        assert(negacyclic(a, b)[k] == cv[k]);
+    }
+    lemma_eval_cong(p, d, r, n);
+    lemma_eval_linear(c, cv, d, -1, r, n);
+    lemma_eval_conv(a, b, r, n);
+    lemma_cong_refl(eval(c, r));
+    lemma_cong_refl(-1);
+    lemma_cong_arith(-1, -1, eval(cv, r), eval(a, r) * eval(b, r));
+    lemma_cong_arith(eval(c, r), eval(c, r), (-1) * eval(cv, r), (-1) * (eval(a, r) * eval(b, r)));
+    lemma_cong_trans(eval(p, r), eval(d, r), eval(c, r) + (-1) * (eval(a, r) * eval(b, r)));
+}
+
 /// the convolution respects congruence of its first argument
-#[verifier::external_body]
+proof fn lemma_conv_cong_upto(a: Seq<int>, a2: Seq<int>, b: Seq<int>, k: int, m: nat)
+    requires a.len() == a2.len(), m <= a.len(), forall|t: int| 0 <= t < a.len() ==> cong(#[trigger] a[t], a2[t]),
+    ensures cong(conv_upto(a, b, k, m), conv_upto(a2, b, k, m))
+    decreases m
+{
+    if m == 0 { lemma_conv_step(a, b, k, 0); lemma_conv_step(a2, b, k, 0); } else {
+        let mm = (m - 1) as nat;
+        lemma_conv_cong_upto(a, a2, b, k, mm);
+        lemma_conv_step(a, b, k, mm);
+        lemma_conv_step(a2, b, k, mm);
+        lemma_cong_refl(bneg(b, k - mm));
+        lemma_cong_arith(a[mm as int], a2[mm as int], bneg(b, k - mm), bneg(b, k - mm));
+        lemma_cong_arith(conv_upto(a, b, k, mm), conv_upto(a2, b, k, mm), a[mm as int] * bneg(b, k - mm), a2[mm as int] * bneg(b, k - mm));
+    }
+}
 proof fn lemma_conv_cong(a: Seq<int>, a2: Seq<int>, b: Seq<int>, k: int)
     requires a.len() == a2.len(), b.len() == a.len(), 0 <= k < a.len(),
              forall|t: int| 0 <= t < a.len() ==> cong(#[trigger] a[t], a2[t]),
     ensures cong(negacyclic(a, b)[k], negacyclic(a2, b)[k])
-{ }
+{
+    lemma_conv_cong_upto(a, a2, b, k, a.len());
+}
